@@ -17,12 +17,16 @@ STUBS = ["tables of symbolic reals in object-dtype arrays (real numpy tile/repea
          "(start, stop) and cuts the path", "Date -> object with a symbolic _mjd (DatedInterp)"]
 ASSUMPTIONS = ["reals instead of binary64 (bit-precise node exactness is outside)", "strictly increasing abscissae"]
 OUTSIDE = ["'within centimetres for a smooth orbit' (needs a derivative bound of the orbit: analysis)",
-           "polynomial reproduction for orders above the bound", "bit-precise exactness at nodes in binary64"]
+           "polynomial reproduction for orders above 6 (orders 7 and 8 exhaust 3.5 GB / 900 s per query in z3's non-linear "
+           "arithmetic; for those orders the value is checked to be the Lagrange-basis combination over the right window, and "
+           "exact at the nodes, from which reproduction follows by the uniqueness of the interpolating polynomial -- a step not "
+           "made by the solver)", "bit-precise exactness at nodes in binary64"]
 
 
 def bounds(tier):
     q = tier == "quick"
-    return {"prev_idx_table_len": 8 if q else 16, "lagrange_orders": [2, 3, 4, 5, 6] if q else [2, 3, 4, 5, 6, 7, 8],
+    return {"prev_idx_table_len": 8 if q else 16, "lagrange_orders": [2, 3, 4, 5, 6],
+            "basis_orders": [7, 8] if q else [7, 8, 9, 10, 12],
             "window_orders": "2..12 (symbolic)", "table_len_for_reproduction": "order + 2"}
 
 
@@ -152,6 +156,40 @@ def lagrange_case(order, where):
                      f"the {where} interval of the table (edge windows included)")
 
 
+def basis_case(order, where):
+    """orders beyond the reach of the reproduction obligations: the value is sum_j y_j prod_{m != j} (x - x_m)/(x_j - x_m) over
+    the documented window (order nodes centred on the query interval, shifted inside the table at the edges) for arbitrary data"""
+    n = order + 2
+    ins = [(f"x{i}", "real") for i in range(n)] + [(f"y{i}", "real") for i in range(n)] + [("x", "real")]
+    pidx = {"first": 0, "middle": n // 2 - 1, "last": n - 2}[where]
+
+    def pre(v):
+        return [v[f"x{i}"] < v[f"x{i + 1}"] for i in range(n - 1)] + [v[f"x{pidx}"] < v["x"], v["x"] <= v[f"x{pidx + 1}"]]
+
+    def run(env, v):
+        m = interp_mod(env)
+        it = m.Interp(env.vec(*[v[f"x{i}"] for i in range(n)]), env.vec(*[v[f"y{i}"] for i in range(n)]), "lagrange", order)
+        if env.symbolic:
+            it._prev_idx = lambda x: pidx
+        return {"value": it(v["x"])}
+
+    def ref(env, v, out):
+        lo = pidx - order // 2 + 1                     # order//2 nodes up to and including prev_idx, the rest after it
+        lo = max(0, min(lo, n - order))
+        idx = range(lo, lo + order)
+        tot = 0
+        for j in idx:
+            w = v[f"y{j}"]
+            for k in idx:
+                if k != j:
+                    w = w * (v["x"] - v[f"x{k}"]) / (v[f"x{j}"] - v[f"x{k}"])
+            tot = tot + w
+        return {"value": tot}
+    return Case(f"basis/{order}/{where}", ins, run, ref, pre=pre, timeout=120, tol=1e-7, abs_tol=1e-9, use_nf=False,
+                desc=f"Lagrange order {order}, query in the {where} interval: the value is the Lagrange-basis combination of the "
+                     "tabulated data over the centred (edge-shifted) window of `order` nodes")
+
+
 def node_case(order):
     """at a node the interpolated value is the tabulated one (reals)"""
     n = order + 1
@@ -240,7 +278,12 @@ def all_cases(tier):
     for o in b["lagrange_orders"]:
         for w in ("first", "middle", "last"):
             cs.append(lagrange_case(o, w))
+    for o in (7, 8) if tier == "quick" else (7, 8, 9, 10, 12):
+        for w in ("first", "middle", "last"):
+            cs.append(basis_case(o, w))
     cs += [node_case(2), node_case(3), node_case(4), linear_case(), outside_case("lagrange"), outside_case("linear")]
+    if tier != "quick":
+        cs.append(node_case(8))
     return cs
 
 
